@@ -5,7 +5,7 @@ import ast
 from typing import Optional
 
 from ..cfg import DataFlow
-from ..model import AnalysisError, ClassInfo, FuncInfo, dotted, last_attr, norm_text, walk_no_nested
+from ..model import AnalysisError, ClassInfo, FuncInfo, call_name, dotted, last_attr, norm_text, walk_no_nested
 from ..rules import axis_registry as reg
 from ..terms import FlowNormalizer, Poly
 
@@ -83,43 +83,40 @@ def _is_values_of(e: ast.AST, kw: Optional[str], owner: str) -> bool:
     return dotted(e) == f"{owner}.values"
 
 
-def run(ctx) -> None:
-    repo = ctx.repo
-    ctx.rule("R-REGISTRY", reg.__doc__.split("(registry)")[1].split("(type key)")[0])
-    ctx.rule("R-TYPEKEY", "the key under which to_dict/axis_to_dict store the class name is the key "
-             "from_dict/axis_from_dict look up and strip, and is not a field of any axis class")
-    ctx.rule("R-DATACLASS", "the dict form is dataclasses.asdict and the reader calls cls(**fields): every axis class "
-             "that introduces a new field is decorated with @dataclass (else the field is missing from the dict), no "
-             "field is declared init=False, no dataclass(init=False), and no axis class defines its own __init__")
-    ctx.rule("R-ORDINAL", "OrdinalAxis.__getitem__ and concatenate rebuild type(self)(**asdict(self)) and change only "
-             "the 'values' entry: __getitem__ stores values indexed by exactly the given item, concatenate stores "
-             "self.values followed by other.values (in this order)")
-    ctx.rule("R-LINEAR", "LinearAxis.coordinates(n) is offset + i·sampling for i = 0..n−1: linspace(offset, offset + "
-             "sampling·n, n, endpoint=False) or an equivalent form")
-    ctx.rule("R-AXISCONV", "LinearAxis.convert_units scales sampling and offset by one and the same conversion "
-             "factor, obtained for the receiver's current units")
-    ctx.undecided("that safe_equality / __post_init__ treat the reconstructed field values as equal (tuples vs lists "
-                  "after JSON), and field *values* that are not JSON/dict friendly")
-    ctx.undecided("numpy object-array indexing semantics for index arrays in OrdinalAxis.__getitem__")
+DATACLASS_RULE = ("the dict form is dataclasses.asdict and the reader calls cls(**fields): every axis class "
+                  "that introduces a new field is decorated with @dataclass (else the field is missing from the dict), no "
+                  "field is declared init=False, no dataclass(init=False), and no axis class defines its own __init__")
 
-    base = repo.cls(MOD, reg.BASE)
-    classes = reg.axis_classes(repo)
 
-    # ---------------- R-REGISTRY / R-TYPEKEY
-    readers = [reg.analyse_reader(repo, repo.function(MOD, "axis_from_dict")),
-               reg.analyse_reader(repo, repo.method(MOD, reg.BASE, "from_dict"))]
-    writers = [repo.function(MOD, "axis_to_dict"), repo.method(MOD, reg.BASE, "to_dict")]
-    n = reg.check_registry(ctx, readers)
-    ctx.require(n >= 2 * 10, f"R-REGISTRY examined only {n} (class, reader) pairs")
-    reg.check_type_key(ctx, writers, readers)
+def dataclass_rules(ctx, repo, classes=None, writers=None) -> None:
+    """R-DATACLASS, shared by C35 (dict round trip) and C30 (zarr round trip writes axes with axis_to_dict)."""
+    classes = classes if classes is not None else reg.axis_classes(repo)
+    writers = writers if writers is not None else [repo.function(MOD, "axis_to_dict"),
+                                                   repo.method(MOD, reg.BASE, "to_dict")]
     for w in writers:
+        recv = (w.positional_params[0] if w.positional_params else "", "self", "axis")
         calls = [c for c in walk_no_nested(w.node) if isinstance(c, ast.Call) and last_attr(c) == "asdict"]
-        arg_ok = len(calls) == 1 and len(calls[0].args) == 1 and dotted(calls[0].args[0]) in (
-            w.positional_params[0] if w.positional_params else "", "self", "axis")
-        ctx.check(arg_ok, "R-DATACLASS", f"{w.qualname}:asdict", w.where, "dict form = dataclasses.asdict(axis)",
-                  "the writer no longer takes the fields from dataclasses.asdict(axis)", key_detail="asdict")
+        arg_ok = len(calls) == 1 and len(calls[0].args) == 1 and dotted(calls[0].args[0]) in recv
+        how = "dict form = dataclasses.asdict(axis)"
+        why = "the writer no longer takes the fields from dataclasses.asdict(axis)"
+        if not calls:
+            # equivalent spelling: {f.name: getattr(axis, f.name) for f in dataclasses.fields(axis)} — all fields, no filter
+            for dc in (n for n in walk_no_nested(w.node) if isinstance(n, ast.DictComp)):
+                g = dc.generators[0]
+                if len(dc.generators) == 1 and isinstance(g.iter, ast.Call) and last_attr(g.iter) == "fields" \
+                        and len(g.iter.args) == 1 and dotted(g.iter.args[0]) in recv and isinstance(g.target, ast.Name):
+                    f_ = g.target.id
+                    key_ok = dotted(dc.key) == f"{f_}.name"
+                    val_ok = isinstance(dc.value, ast.Call) and call_name(dc.value) == "getattr" and \
+                        len(dc.value.args) == 2 and dotted(dc.value.args[0]) in recv and \
+                        dotted(dc.value.args[1]) == f"{f_}.name"
+                    if g.ifs:
+                        why = (f"the writer collects the fields of the axis with the filter `{norm_text(g.ifs[0])}`: "
+                               "fields that fail it are not written and come back as class defaults")
+                    elif key_ok and val_ok:
+                        arg_ok, how = True, "dict form = {f.name: getattr(axis, f.name) for f in fields(axis)}"
+        ctx.check(arg_ok, "R-DATACLASS", f"{w.qualname}:asdict", w.where, how, why, key_detail="asdict")
 
-    # ---------------- R-DATACLASS
     for c in classes:
         own_new = [name for name, owner in reg.dataclass_fields(c).items() if owner is c]
         deco = [d for d in c.node.decorator_list
@@ -144,6 +141,37 @@ def run(ctx) -> None:
         ctx.check(not problems, "R-DATACLASS", c.qualname, c.where,
                   f"{'dataclass' if deco else 'inherits the dataclass of its base'}; new fields {own_new or '—'}",
                   "; ".join(problems), key_detail="dataclass")
+
+
+
+def run(ctx) -> None:
+    repo = ctx.repo
+    ctx.rule("R-REGISTRY", reg.__doc__.split("(registry)")[1].split("(type key)")[0])
+    ctx.rule("R-TYPEKEY", "the key under which to_dict/axis_to_dict store the class name is the key "
+             "from_dict/axis_from_dict look up and strip, and is not a field of any axis class")
+    ctx.rule("R-DATACLASS", DATACLASS_RULE)
+    ctx.rule("R-ORDINAL", "OrdinalAxis.__getitem__ and concatenate rebuild type(self)(**asdict(self)) and change only "
+             "the 'values' entry: __getitem__ stores values indexed by exactly the given item, concatenate stores "
+             "self.values followed by other.values (in this order)")
+    ctx.rule("R-LINEAR", "LinearAxis.coordinates(n) is offset + i·sampling for i = 0..n−1: linspace(offset, offset + "
+             "sampling·n, n, endpoint=False) or an equivalent form")
+    ctx.rule("R-AXISCONV", "LinearAxis.convert_units scales sampling and offset by one and the same conversion "
+             "factor, obtained for the receiver's current units")
+    ctx.undecided("that safe_equality / __post_init__ treat the reconstructed field values as equal (tuples vs lists "
+                  "after JSON), and field *values* that are not JSON/dict friendly")
+    ctx.undecided("numpy object-array indexing semantics for index arrays in OrdinalAxis.__getitem__")
+
+    base = repo.cls(MOD, reg.BASE)
+    classes = reg.axis_classes(repo)
+
+    # ---------------- R-REGISTRY / R-TYPEKEY
+    readers = [reg.analyse_reader(repo, repo.function(MOD, "axis_from_dict")),
+               reg.analyse_reader(repo, repo.method(MOD, reg.BASE, "from_dict"))]
+    writers = [repo.function(MOD, "axis_to_dict"), repo.method(MOD, reg.BASE, "to_dict")]
+    n = reg.check_registry(ctx, readers)
+    ctx.require(n >= 2 * 10, f"R-REGISTRY examined only {n} (class, reader) pairs")
+    reg.check_type_key(ctx, writers, readers)
+    dataclass_rules(ctx, repo, classes, writers)
 
     # ---------------- R-ORDINAL
     getitem = repo.method(MOD, "OrdinalAxis", "__getitem__")
